@@ -143,6 +143,42 @@ class Crate:
         out.append(lines[sp["hi_line"] - 1][:sp["hi_col"]])
         return "\n".join(out)
 
+    def item_kind_after(self, sp):
+        """'fn' | 'mod' | 'trait' | 'impl': kind of the item an attribute (given by its span) annotates."""
+        lines = self.source(sp["file"])
+        text = lines[sp["hi_line"] - 1][sp["hi_col"]:] + "\n" + "\n".join(lines[sp["hi_line"]:sp["hi_line"] + 60])
+        i = 0
+        n = len(text)
+        while i < n:
+            if text[i].isspace():
+                i += 1
+            elif text.startswith("//", i):
+                j = text.find("\n", i)
+                i = n if j < 0 else j + 1
+            elif text.startswith("/*", i):
+                j = text.find("*/", i)
+                i = n if j < 0 else j + 2
+            elif text[i] == "#":
+                j = text.find("[", i)
+                depth = 0
+                k = j
+                while k < n:
+                    if text[k] == "[":
+                        depth += 1
+                    elif text[k] == "]":
+                        depth -= 1
+                        if depth == 0:
+                            break
+                    k += 1
+                i = k + 1
+            else:
+                break
+        rest = text[i:]
+        m = re.match(r"^(pub\s*(\([^)]*\))?\s*)?((?:(?:unsafe|async|const|default|auto|extern\s*(\"[^\"]*\")?)\s+)*)(trait|impl|mod|fn)\b", rest)
+        if m:
+            return m.group(m.lastindex)
+        return "fn"
+
     def get(self, path):
         ds = self.by_path.get(path, [])
         return ds[0] if ds else None
@@ -174,24 +210,23 @@ class Crate:
                 g.attr = None
             paths = set(d["path"] for d in g.defs)
             roots = [d for d in g.defs if d.get("parent") not in paths and d["kind"] != "Use"]
-            # items produced by nested foreign macros (unimock's mock API module, ...) do not decide the mode
-            own = [d for d in roots if all(is_entrait_macro(e) for e in d["expn"])]
-            mods = [d for d in own if d["kind"] == "Mod"]
-            inh = [d for d in own if d["kind"] == "Impl" and d.get("of_trait") is None]
+            # the kind of the annotated item is read from the source text that follows the attribute
+            # (definitions alone are ambiguous once foreign attribute macros re-expand the original item)
+            g.mode = self.item_kind_after(g.call_site)
+            mods = [d for d in roots if d["kind"] == "Mod"]
+            inh = [d for d in roots if d["kind"] == "Impl" and d.get("of_trait") is None]
             fns = [d for d in roots if d["kind"] == "Fn"]
-            if mods:
-                g.mode = "mod"
+            tr = [d for d in roots if d["kind"] == "Trait"]
+            if g.mode == "mod" and mods:
                 g.module = mods[0].get("parent")
-            elif inh:
-                g.mode = "impl"
+            elif g.mode == "impl" and inh:
                 g.module = inh[0].get("parent_module")
-            elif fns:
-                g.mode = "fn"
+            elif g.mode == "fn" and fns:
                 g.module = fns[0].get("parent")
-            else:
-                g.mode = "trait"
-                tr = [d for d in roots if d["kind"] == "Trait"]
-                g.module = tr[0].get("parent") if tr else (roots[0].get("parent_module") if roots else None)
+            elif tr:
+                g.module = tr[0].get("parent")
+            elif roots:
+                g.module = roots[0].get("parent") if roots[0].get("parent_kind") == "Mod" else roots[0].get("parent_module")
             out.append(g)
         return out
 
